@@ -1,5 +1,193 @@
 /-
-C03 — property theorems (stub; nothing proved yet).
+C03 — precipitation runs are well formed for every configuration and survive backend faults.
+Theorems about the bookkeeping models KawinV.KWNF (fault path, history alignment), KawinV.MB
+(recorded statistics) and KawinV.PSD (stored distribution); the solver clock is C05.
 -/
+import KawinV.Model.KWNFault
+import KawinV.Gen.C03Attrs
+import KawinV.Props.C01
+import KawinV.Props.C02
+import KawinV.Props.C05
+import Mathlib.Tactic.Ring
+import Mathlib.Tactic.Linarith
+import Mathlib.Algebra.Order.Field.Basic
+
+set_option linter.unusedSectionVars false
+set_option linter.unusedVariables false
+set_option linter.unusedSimpArgs false
+
 namespace KawinV.Props.C03
+open KawinV KawinV.KWNF KawinV.MB KawinV.PSD
+
+variable {α : Type} [Field α] [LinearOrder α] [IsStrictOrderedRing α]
+
+/-! ### histories stay aligned -/
+
+/-- (regenerated table) every array that a fresh PrecipitationData holds is in ATTRIBUTES, so
+`appendToArrays` grows every one of them. -/
+theorem attrs_cover : ∀ a ∈ Gen.C03.arrayAttrs, a ∈ Gen.C03.attributes := by decide
+
+theorem attrs_cover' : ∀ a ∈ Gen.C03.attributes, a ∈ Gen.C03.arrayAttrs := by decide
+
+theorem appendAll_aligned (attrs : List String) (hist : List (String × Nat)) (n : Nat)
+    (hall : ∀ e ∈ hist, e.1 ∈ attrs) (hlen : ∀ e ∈ hist, e.2 = n) :
+    (∀ e ∈ appendAll attrs hist, e.1 ∈ attrs) ∧ (∀ e ∈ appendAll attrs hist, e.2 = n + 1) := by
+  unfold appendAll
+  constructor
+  · intro e he
+    obtain ⟨⟨nm, len⟩, hm, rfl⟩ := List.mem_map.mp he
+    have := hall _ hm
+    simp only at this
+    simp [this]
+  · intro e he
+    obtain ⟨⟨nm, len⟩, hm, rfl⟩ := List.mem_map.mp he
+    have h1 := hall _ hm
+    have h2 := hlen _ hm
+    simp only at h1 h2
+    simp [h1, h2]
+
+/-- **alignment**: after any number of accepted steps (over any number of solve calls) all
+histories have the same length, initial length + number of steps. -/
+theorem histories_aligned (attrs : List String) (hist : List (String × Nat)) (n0 k : Nat)
+    (hall : ∀ e ∈ hist, e.1 ∈ attrs) (hlen : ∀ e ∈ hist, e.2 = n0) :
+    (∀ e ∈ appendN attrs hist k, e.1 ∈ attrs) ∧ (∀ e ∈ appendN attrs hist k, e.2 = n0 + k) := by
+  induction k with
+  | zero => exact ⟨by simpa [appendN] using hall, by simpa [appendN] using hlen⟩
+  | succ k ih =>
+    have := appendAll_aligned attrs (appendN attrs hist k) (n0 + k) ih.1 ih.2
+    simpa [appendN, Nat.add_assoc] using this
+
+/-- the 16 kawin histories, concretely: the regenerated table, each of length 1 after setup -/
+example : ∀ e ∈ appendN Gen.C03.attributes (Gen.C03.arrayAttrs.map (fun a => (a, 1))) 5, e.2 = 6 := by
+  have := (histories_aligned Gen.C03.attributes (Gen.C03.arrayAttrs.map (fun a => (a, 1))) 1 5
+    (by intro e he; obtain ⟨a, ha, rfl⟩ := List.mem_map.mp he; exact attrs_cover a ha)
+    (by intro e he; obtain ⟨a, ha, rfl⟩ := List.mem_map.mp he; rfl)).2
+  simpa using this
+
+/-! ### the fault path does not crash and keeps the last valid values -/
+
+/-- **fault path is total**: once `self.growth` exists (it is initialised to zeros in setup before
+the first growth calculation), `_singleGrowthMulti` returns a value for EVERY backend answer,
+including "no result" with non-negative driving force. -/
+theorem growth_fallback_total (nElem nBounds : Nat) (dG precDens : α)
+    (res : Option (List α × List α × List α)) (kin g0 prevEqA prevEqB : List α) :
+    ∃ out, singleGrowthMulti nElem nBounds dG precDens res kin (some g0) prevEqA prevEqB = .ok out := by
+  unfold singleGrowthMulti
+  split
+  · exact ⟨_, rfl⟩
+  · cases res with
+    | none => simp only; split <;> exact ⟨_, rfl⟩
+    | some r => obtain ⟨g, a, b⟩ := r; exact ⟨_, rfl⟩
+
+/-- **last valid values**: on a failed calculation with non-negative driving force the growth
+rate and the equilibrium compositions are exactly the previous ones and no table is overwritten. -/
+theorem growth_fallback_keeps_previous (nElem nBounds : Nat) (dG precDens : α)
+    (kin g0 prevEqA prevEqB : List α) (hdG : ¬ dG < 0) :
+    singleGrowthMulti nElem nBounds dG precDens none kin (some g0) prevEqA prevEqB
+      = .ok { growth := g0, xEqA := prevEqA, xEqB := prevEqB, tablesKept := true } := by
+  unfold singleGrowthMulti
+  simp [hdG]
+
+/-- the crash that the repair removed, made explicit: without a previous growth rate the code path
+raises (AttributeError) — reachable only if setup did not initialise it. -/
+theorem growth_fallback_needs_previous (nElem nBounds : Nat) (dG precDens : α)
+    (kin prevEqA prevEqB : List α) (hdG : ¬ dG < 0) :
+    singleGrowthMulti nElem nBounds dG precDens none kin none prevEqA prevEqB = .error .attr := by
+  unfold singleGrowthMulti
+  simp [hdG]
+
+/-- the growth field keeps the length of the class-boundary array on every branch -/
+theorem growth_length (nElem nBounds : Nat) (dG precDens : α)
+    (res : Option (List α × List α × List α)) (kin g0 prevEqA prevEqB : List α) (out : GrowthOut α)
+    (hk : kin.length = nBounds) (hg0 : g0.length = nBounds)
+    (hres : ∀ g a b, res = some (g, a, b) → g.length = nBounds)
+    (h : singleGrowthMulti nElem nBounds dG precDens res kin (some g0) prevEqA prevEqB = .ok out) :
+    out.growth.length = nBounds := by
+  unfold singleGrowthMulti at h
+  split at h
+  · cases h; simp
+  · cases res with
+    | none =>
+      simp only at h
+      split at h
+      · cases h; simp
+      · cases h; exact hg0
+    | some r =>
+      obtain ⟨g, a, b⟩ := r
+      simp only at h
+      cases h
+      simp [hk, hres g a b rfl]
+
+/-! ### recorded quantities stay in range, whatever the backend returned -/
+
+theorem moment_nonneg (k : Nat) (N R : List α) (hN : ∀ v ∈ N, 0 ≤ v) (hR : ∀ r ∈ R, 0 ≤ r) :
+    0 ≤ moment k N R := by
+  unfold moment
+  induction N generalizing R with
+  | nil => simp
+  | cons a as ih =>
+    cases R with
+    | nil => simp
+    | cons r rs =>
+      simp only [List.zipWith_cons_cons, List.sum_cons]
+      have h1 : 0 ≤ a * npow r k := mul_nonneg (hN a (by simp)) (C02.npow_nonneg r (hR r (by simp)) k)
+      have h2 := ih rs (fun v hv => hN v (by simp [hv])) (fun v hv => hR v (by simp [hv]))
+      linarith
+
+/-- **fraction bounds, radii, density**: for a non-negative state (guaranteed by the stored-PSD
+theorem `C02.trunc_nonneg`) every recorded volume fraction lies in [0,1], the mean radius and the
+density are non-negative — the mass balance does not involve the backend at all. -/
+theorem recorded_ranges (nElem : Nat) (minDens : α) (p : PhaseIn α)
+    (hN : ∀ v ∈ p.N, 0 ≤ v) (hR : ∀ r ∈ p.R, 0 ≤ r)
+    (hvr : 0 ≤ p.volRatio) (hvf : 0 ≤ p.volumeFactor) (hmin : 0 ≤ minDens) :
+    0 ≤ (phaseBalance nElem minDens p).volFrac ∧ (phaseBalance nElem minDens p).volFrac ≤ 1 ∧
+    0 ≤ (phaseBalance nElem minDens p).ravg ∧ 0 ≤ (phaseBalance nElem minDens p).dens := by
+  have hm0 := moment_nonneg 0 p.N p.R hN hR
+  have hm1 := moment_nonneg 1 p.N p.R hN hR
+  have hm3 := moment_nonneg 3 p.N p.R hN hR
+  refine ⟨?_, C01.volFrac_le_one nElem minDens p, ?_, ?_⟩
+  · unfold phaseBalance rawVolFrac
+    by_cases h1 : moment 0 p.N p.R < minDens
+    · simp [h1]
+    · by_cases h2 : isOne p.prevVolFrac = true
+      · simp [h1, h2]
+      · have : 0 ≤ p.volRatio * p.volumeFactor * moment 3 p.N p.R :=
+          mul_nonneg (mul_nonneg hvr hvf) hm3
+        by_cases h3 : p.volRatio * p.volumeFactor * moment 3 p.N p.R < 1
+        · simp [h1, h2, h3, this]
+        · simp [h1, h2, h3]
+  · unfold phaseBalance
+    by_cases h1 : moment 0 p.N p.R < minDens
+    · simp [h1]
+    · simp only [h1, if_false]
+      exact div_nonneg hm1 hm0
+  · unfold phaseBalance
+    by_cases h1 : moment 0 p.N p.R < minDens <;> simp [h1, hm0]
+
+/-- **PSD ≥ 0 on every step, faulted or not**: the stored distribution is a truncation. -/
+theorem stored_psd_nonneg (x : List α) : ∀ v ∈ trunc x, 0 ≤ v := C02.trunc_nonneg x
+
+/-! ### the clock of a precipitation run (instances of the C05 solver theorems)
+
+`PrecipitateModel.getDt` (minimum over the constraint-derived steps, `dt == dtMax ⇒ dtPropose`) is
+just one more proposal function; the solver theorems hold for EVERY proposal function, finite or
+not, so they hold for it, faulted steps included. -/
+
+open KawinV.Solver in
+/-- **clock**: whatever `getDt` proposes on whatever history, the recorded time stamps strictly
+increase and stay in (t0, tf]. -/
+theorem kwn_clock (t0 tf minFrac maxFrac : α) (getDt : List α → Dt α) (stop : List α → Bool)
+    (h : t0 < tf) (hmin : 0 < minFrac) (hmm : minFrac ≤ maxFrac) (fuel : Nat) :
+    (solve t0 tf minFrac maxFrac getDt stop fuel).times.Pairwise (fun newer older => older < newer) ∧
+    (∀ x ∈ (solve t0 tf minFrac maxFrac getDt stop fuel).times, t0 < x ∧ x ≤ tf) :=
+  ⟨C05.solve_times_increasing t0 tf minFrac maxFrac getDt stop h hmin hmm fuel,
+   C05.solve_times_bounds t0 tf minFrac maxFrac getDt stop h hmin hmm fuel⟩
+
+open KawinV.Solver in
+/-- **exact end time**: without a stop request the run terminates exactly at the requested end. -/
+theorem kwn_reaches_end (t0 tf minFrac maxFrac : α) (getDt : List α → Dt α)
+    (h : t0 < tf) (hmin : 0 < minFrac) (hmm : minFrac ≤ maxFrac) (N : Nat) (hN : 1 ≤ (N : α) * minFrac) :
+    (solve t0 tf minFrac maxFrac getDt (fun _ => false) N).cur = tf :=
+  C05.solve_reaches_tf t0 tf minFrac maxFrac getDt (fun _ => false) h hmin hmm (fun _ => rfl) N hN
+
 end KawinV.Props.C03
